@@ -166,12 +166,21 @@ func checkC03(tier string, seed int64) int {
 			td, cd, ei := ex.Input("td", gosx.SBool), ex.Input("cd", gosx.SBool), ex.Input("ei", gosx.SBool)
 			var res gosx.Value
 			var pan *gosx.TargetPanic
+			unwound := ""
 			if j.ctx.load {
-				res, pan = ex.Call(ex.Func("verifC03Load"), src, td, cd)
+				res, pan, unwound = ex.CallBounded(ex.Func("verifC03Load"), src, td, cd)
 			} else {
-				res, pan = ex.Call(ex.Func("verifC03Eval"), src, td, cd, ei)
+				res, pan, unwound = ex.CallBounded(ex.Func("verifC03Eval"), src, td, cd, ei)
 			}
 			id := "C03/" + j.ctx.name
+			if unwound != "" {
+				if strings.Contains(unwound, ".exec") {
+					// a script that does not terminate is excepted by the property
+					ex.EndUnwind(unwound)
+				}
+				ex.Assert(ex.TT().Bool(false), "C03/host-panic-or-front-end-nontermination/"+j.ctx.name, "tokenize/parse/load/compile does not finish: "+unwound, map[string]interface{}{"forced": ex.LazyForced()})
+				return
+			}
 			if pan != nil {
 				where := ex.PanicOrigin()
 				ex.Assert(ex.TT().Bool(false), "C03/host-panic/"+where+"/"+panicClass(ex.PanicText(pan)), fmt.Sprintf("a Go panic escapes to the host from %s: %s", where, ex.PanicText(pan)), map[string]interface{}{"forced": ex.LazyForced()})
@@ -270,11 +279,15 @@ func checkC03(tier string, seed int64) int {
 		if cd.j.ctx.load {
 			hname = "verifC03Load"
 		}
-		out, err := c.Native.RunOnce(map[string]interface{}{"Op": "harness", "Harness": hname, "Src": src, "Vec": cd.f.Model}, &resp, 30)
+		tmo := 30
+		if strings.Contains(cd.f.ID, "nontermination") {
+			tmo = 10
+		}
+		out, err := c.Native.RunOnce(map[string]interface{}{"Op": "harness", "Harness": hname, "Src": src, "Vec": cd.f.Model}, &resp, tmo)
 		c.mu.Lock()
 		c.replays++
 		c.mu.Unlock()
-		confirmed := strings.HasPrefix(cd.f.ID, "C03/host-panic/") && (err != nil || resp.HostPanic != "")
+		confirmed := strings.HasPrefix(cd.f.ID, "C03/host-panic") && (err != nil || resp.HostPanic != "")
 		if strings.HasSuffix(cd.f.ID, "/stage-prefix") && err == nil && resp.HostPanic == "" && resp.Text != "" && stageRE.FindStringSubmatch(resp.Text) == nil {
 			confirmed = true
 			resp.HostPanic = "error without stage prefix: " + truncate(resp.Text, 120)
@@ -319,7 +332,7 @@ func checkC03(tier string, seed int64) int {
 	c.Cov("contexts", len(tokContexts))
 	c.Cov("rule", "tokenize is replaced by an arbitrary token sequence: concrete context tokens + 1..3 symbolic tokens whose Symbol ranges over the real symbols table (+ scanner symbols missing from it; 'rep' = one or two representatives per (Lbp, Nud, Led) class of the real table) and whose Text ranges over a per-class set incl. malformed literals; the run options are symbolic booleans; the real Eval (parse, loadImports, compile, run, treeDump, codeDump) and Call/Func on what it defined run in the engine; tokens are concretised lazily when the parser first reads them, so paths = distinct consumed prefixes")
 	c.Assumption("the scanner (text/scanner) itself is not encoded; every reported sequence is rendered as source text and replayed through the real tokenizer natively")
-	c.Assumption("non-termination inside the run phase (script loops) is excepted by the property: paths that hit the step bound inside VM.exec are counted as unwind, not as violations")
+	c.Assumption("non-termination inside the run phase (script loops) is excepted by the property: paths that hit the step bound inside VM.exec are counted as unwind, not as violations; hitting the step bound (4e5 SSA steps) anywhere else — tokenize, parse, load, compile, dumps — is a failed obligation, confirmed natively with a 10 s timeout")
 	if unwindFront > 0 {
 		fmt.Printf("note: %d paths hit the step bound outside VM.exec (front-end termination not shown for them)\n", unwindFront)
 	}
